@@ -14,7 +14,8 @@ def handlers : List (String × (List String → Option String)) :=
     ("agg", Aggregate.handle), ("cascade", Cascade.handle),
     ("constrain", Alloc.handle), ("hardcon", Alloc.handleHardcon), ("package", Alloc.handlePackageKind),
     ("asd", Protocol.handle), ("objective", Protocol.Objective.handle), ("calobj", Protocol.Objective.handleCal),
-    ("bracket", Protocol.Bracket.handle), ("skeleton", Protocol.Skeletons.handle) ]
+    ("bracket", Protocol.Bracket.handle), ("skeleton", Protocol.Skeletons.handle),
+    ("trows", Timed.handleRows), ("tkey", Timed.handleKey) ]
 
 /-- One request per line: `<kind> <args…>`; one canonical reply per line. -/
 def dispatch (line : String) : String :=
